@@ -48,6 +48,7 @@ def kindOfBase (name : String) : Option Kind :=
   | "c15" => some Kinds.C15.kind
   | "c16" => some Kinds.C16.kind
   | "memo" => some Kinds.C17.kind
+  | "memogate" => some Kinds.C17.gateKind
   | "debounce" => some Kinds.C20.debounceKind
   | "delay" => some Kinds.C20.delayKind
   | "throttle" => some Kinds.C20.throttleKind
